@@ -450,8 +450,35 @@ package shaping
 //
 //@ trusted LineWrapper.fillUntil
 //@   modifies l.scratch.alt; l.scratch.altAdvance; all(Output)
-//@ trusted mapRunesToClusterIndices3
+// mapRunesToClusterIndices3: every rune of the run is mapped to the first glyph (in glyph order) of the cluster
+// holding it. clusterEdge is a ghost predicate naming the glyph the walk visits for each cluster (the first glyph of
+// the cluster in a left-to-right run, the last one in a right-to-left run); the precondition says the clusters are
+// well formed: the walk starts on the cluster of the run's first rune, each cluster's rune span ends where the next
+// one starts, the last ends with the run, and the two ends of a cluster carry the same counts.
+//@ opaque clusterEdge(g int) bool
+//@ spec runeInCluster(glyphs []Glyph, off int, i int, m int) bool = 0 <= m && m < len(glyphs) && glyphs[m].ClusterIndex-off <= i && i < glyphs[m].ClusterIndex-off+glyphs[m].RuneCount
+//@ func mapRunesToClusterIndices3 C02
+//@   mode int
+//@   requires [ltr-clusters] implies(!bool(dir.Progression()) && len(glyphs) > 0, clusterEdge(0) && glyphs[0].ClusterIndex == runes.Offset && forall(g, 0, len(glyphs), implies(clusterEdge(g), glyphs[g].GlyphCount >= 1 && glyphs[g].RuneCount >= 1 && g+glyphs[g].GlyphCount <= len(glyphs) && implies(g+glyphs[g].GlyphCount < len(glyphs), clusterEdge(g+glyphs[g].GlyphCount) && glyphs[g+glyphs[g].GlyphCount].ClusterIndex == glyphs[g].ClusterIndex+glyphs[g].RuneCount) && implies(g+glyphs[g].GlyphCount == len(glyphs), glyphs[g].ClusterIndex+glyphs[g].RuneCount == runes.Offset+runes.Count))))
+//@   requires [rtl-clusters] implies(bool(dir.Progression()) && len(glyphs) > 0, clusterEdge(len(glyphs)-1) && glyphs[len(glyphs)-1].ClusterIndex == runes.Offset && forall(g, 0, len(glyphs), implies(clusterEdge(g), glyphs[g].GlyphCount >= 1 && glyphs[g].RuneCount >= 1 && g-glyphs[g].GlyphCount >= -1 && glyphs[g-glyphs[g].GlyphCount+1].ClusterIndex == glyphs[g].ClusterIndex && glyphs[g-glyphs[g].GlyphCount+1].RuneCount == glyphs[g].RuneCount && glyphs[g-glyphs[g].GlyphCount+1].GlyphCount == glyphs[g].GlyphCount && implies(g-glyphs[g].GlyphCount >= 0, clusterEdge(g-glyphs[g].GlyphCount) && glyphs[g-glyphs[g].GlyphCount].ClusterIndex == glyphs[g].ClusterIndex+glyphs[g].RuneCount) && implies(g-glyphs[g].GlyphCount == -1, glyphs[g].ClusterIndex+glyphs[g].RuneCount == runes.Offset+runes.Count))))
+//@   requires [magnitudes] 0 <= runes.Offset && runes.Offset <= 1<<40 && runes.Count <= 1<<40 && forall(g, 0, len(glyphs), 0 <= glyphs[g].ClusterIndex && glyphs[g].ClusterIndex <= 1<<41 && 0 <= glyphs[g].RuneCount && glyphs[g].RuneCount <= 1<<41 && -(1<<41) <= glyphs[g].GlyphCount && glyphs[g].GlyphCount <= 1<<41)
+//@   ensures [length] implies(runes.Count > 0, len(result) == runes.Count)
+//@   ensures [ltr-rune-in-its-cluster] implies(!bool(dir.Progression()) && len(glyphs) > 0 && runes.Count > 0, forall(i, 0, runes.Count, clusterEdge(result[i]) && runeInCluster(glyphs, runes.Offset, i, result[i])))
+//@   ensures [rtl-rune-in-its-cluster] implies(bool(dir.Progression()) && len(glyphs) > 0 && runes.Count > 0, forall(i, 0, runes.Count, runeInCluster(glyphs, runes.Offset, i, result[i]) && clusterEdge(result[i]+glyphs[result[i]].GlyphCount-1)))
 //@   modifies buf[0:cap(buf)]
+//@   loop 1 invariant [g-range] -1 <= gIdx && gIdx < len(glyphs) && implies(gIdx >= 0, clusterEdge(gIdx) && glyphs[gIdx].ClusterIndex >= runes.Offset) && len(mapping) == runes.Count
+//@   loop 1 invariant [covered] implies(len(glyphs) > 0, forall(i, 0, min(ite(gIdx >= 0, glyphs[gIdx].ClusterIndex-runes.Offset, runes.Count), runes.Count), runeInCluster(glyphs, runes.Offset, i, mapping[i]) && clusterEdge(mapping[i]+glyphs[mapping[i]].GlyphCount-1)))
+//@   loop 2 invariant [g-range] 0 <= gIdx && gIdx < len(glyphs) && clusterEdge(gIdx+glyph.GlyphCount-1) && glyphs[gIdx].ClusterIndex == glyph.ClusterIndex && glyphs[gIdx].RuneCount == glyph.RuneCount && glyphs[gIdx].GlyphCount == glyph.GlyphCount && glyph.RuneCount >= 1 && len(mapping) == runes.Count
+//@   loop 2 invariant [next] implies(gIdx >= 1, clusterEdge(gIdx-1) && glyphs[gIdx-1].ClusterIndex == glyph.ClusterIndex+glyph.RuneCount) && implies(gIdx == 0, glyph.ClusterIndex+glyph.RuneCount == runes.Offset+runes.Count)
+//@   loop 2 invariant [i-range] clusterStart == glyph.ClusterIndex-runes.Offset && clusterEnd == clusterStart+glyph.RuneCount && 0 <= clusterStart && clusterStart <= i && i <= clusterEnd+1
+//@   loop 2 invariant [prefix-kept] forall(j, 0, min(clusterStart, runes.Count), runeInCluster(glyphs, runes.Offset, j, mapping[j]) && clusterEdge(mapping[j]+glyphs[mapping[j]].GlyphCount-1))
+//@   loop 2 invariant [this-cluster] forall(j, clusterStart, min(i, runes.Count), mapping[j] == gIdx)
+//@   loop 3 invariant [g-range] 0 <= gIdx && gIdx <= len(glyphs) && implies(gIdx < len(glyphs), clusterEdge(gIdx) && glyphs[gIdx].ClusterIndex >= runes.Offset) && len(mapping) == runes.Count
+//@   loop 3 invariant [covered] implies(len(glyphs) > 0, forall(i, 0, min(ite(gIdx < len(glyphs), glyphs[gIdx].ClusterIndex-runes.Offset, runes.Count), runes.Count), clusterEdge(mapping[i]) && runeInCluster(glyphs, runes.Offset, i, mapping[i])))
+//@   loop 4 invariant [g-range] 0 <= gIdx && gIdx < len(glyphs) && clusterEdge(gIdx) && glyph.ClusterIndex == glyphs[gIdx].ClusterIndex && glyph.RuneCount == glyphs[gIdx].RuneCount && glyph.GlyphCount == glyphs[gIdx].GlyphCount && len(mapping) == runes.Count
+//@   loop 4 invariant [i-range] clusterStart == glyph.ClusterIndex-runes.Offset && clusterEnd == clusterStart+glyph.RuneCount && 0 <= clusterStart && clusterStart <= i && i <= clusterEnd+1
+//@   loop 4 invariant [prefix-kept] forall(j, 0, min(clusterStart, runes.Count), clusterEdge(mapping[j]) && runeInCluster(glyphs, runes.Offset, j, mapping[j]))
+//@   loop 4 invariant [this-cluster] forall(j, clusterStart, min(i, runes.Count), mapping[j] == gIdx)
 //
 // processBreakOption: the fit classification. w = ceil(space-aware advance of the candidate run in PARAGRAPH direction
 // + advance of the runs already on the candidate line).
